@@ -1165,7 +1165,9 @@ class ValueMap(Value):
         return a < b
 
     def sortedEntries(self):
-        return [(key, self.value[key]) for key in self.getSortedKeys()]
+        # no second lookup: a key that was changed after it was put in
+        # can no longer be found
+        return sorted(self.value.items(), key=lambda entry: entry[0])
 
     def __repr__(self):
         return "<<<" + pad_brackets(
